@@ -13,7 +13,7 @@ Theorem lookup_any_work s t : InvSome s ->
   (forall r, get_by_hash s t = Some r <-> In r s /\ id r = t) /\ (get_by_hash s t = None <-> ~ In t (ids s)).
 Proof. intros H. apply lookup_spec_wf, inv_wf, H. Qed.
 
-Theorem by_height_any_work s h c : InvSome s ->
+Theorem by_height_any_work s h c : InvSome s -> - two63 <= h + count_of c - 1 < two63 ->
   (forall r, In r (by_height_range s h c) -> In r s /\ h <= height r <= h + count_of c - 1) /\
   (forall r, In r s -> st r = Longest -> h <= height r <= h + count_of c - 1 -> In r (by_height_range s h c)).
 Proof. intros _. apply by_height_spec. Qed.
